@@ -21,6 +21,7 @@ import (
 	"strings"
 	"syscall"
 	"time"
+	"unsafe"
 
 	"github.com/piotrnar/gocoin/lib/btc"
 	"verif/vlib"
@@ -155,13 +156,10 @@ func (d *reader) vout() (outs []refOut) {
 }
 
 // refParse: Bitcoin Core's UnserializeTransaction (witness allowed). err "" = accepted.
-// zeroInputLegacy: a transaction with an empty vin followed by a flags byte other than 0/1 is refused by Core
-// ("unknown optional data"); gocoin reads it as a legacy transaction with zero inputs. With zeroInputLegacy the
-// reference does the same, so that the rest of the predicate can still be evaluated on that documented class.
-func refParse(b []byte, zeroInputLegacy bool) (tx refTx, n int, err string) {
+// A transaction with an empty vin followed by a flags byte other than 0/1 is refused ("unknown optional data").
+func refParse(b []byte) (tx refTx, n int, err string) {
 	d := &reader{b: b}
 	tx.ver = uint32(le(d.take(4)))
-	save := d.p
 	tx.ins = d.vin()
 	var flags byte
 	if d.err == "" && len(tx.ins) == 0 {
@@ -169,15 +167,8 @@ func refParse(b []byte, zeroInputLegacy bool) (tx refTx, n int, err string) {
 		if f != nil {
 			flags = f[0]
 			if flags != 0 {
-				if flags != 1 && zeroInputLegacy {
-					d.p = save
-					tx.ins = d.vin()
-					tx.outs = d.vout()
-					flags = 0
-				} else {
-					tx.ins = d.vin()
-					tx.outs = d.vout()
-				}
+				tx.ins = d.vin()
+				tx.outs = d.vout()
 			}
 		}
 	} else {
@@ -266,6 +257,13 @@ func refSerialize(tx *refTx, withWit bool) []byte {
 
 // ---------------------------------------------------------------- one transaction case
 
+var (
+	sizeofTx        = unsafe.Sizeof(btc.Tx{})
+	sizeofTxIn      = unsafe.Sizeof(btc.TxIn{})
+	sizeofTxOut     = unsafe.Sizeof(btc.TxOut{})
+	maxAllocVsModel = 0.0
+	minAllocVsModel = 1e9
+)
 var maxAllocRatio float64
 var maxAllocCase string
 var allocMeasured int
@@ -408,22 +406,13 @@ func checkTx(kind string, raw []byte) {
 		}
 	}
 	ob := observeTx(raw, exactAlloc)
-	ref, rn, rerr := refParse(raw, false)
-	deviates := false
-	if rerr != "" && len(raw) > 5 && raw[4] == 0 && raw[5] >= 2 {
-		if t2, n2, e2 := refParse(raw, true); e2 == "" {
-			ref, rn, rerr, deviates = t2, n2, "", true
-		}
-	}
+	ref, rn, rerr := refParse(raw)
 	class := "reject-" + rerr
 	if rerr == "" {
 		if ref.hasWit {
 			class = "accept-segwit"
 		} else {
 			class = "accept-legacy"
-		}
-		if deviates {
-			class = "accept-zero-input-flags(core-refuses)"
 		}
 	}
 	dk := ""
@@ -513,6 +502,31 @@ func checkTx(kind string, raw []byte) {
 		}
 		if ob.alloc > 64*uint64(len(raw))+slack {
 			fail("tx-alloc", fmt.Sprintf("btc.NewTx allocated %d bytes for an input of %d bytes", ob.alloc, len(raw)))
+		}
+	}
+	// ---- tie for the allocation counter of the model (Wire.allocTx): requested bytes A vs runtime.MemStats delta M.
+	// A <= M (the runtime never hands out less than asked) and M <= 2A + 2048 (size-class rounding is below 2x;
+	// the slack covers the panic value / println of a refused input). Noise from other goroutines only adds to M:
+	// re-measured up to 4 times before it counts.
+	if ob.allocExact && ob.panicked == "" {
+		A, _ := strconv.ParseUint(o.MustAsk(fmt.Sprintf("alloc %d %d %d %s", sizeofTx, sizeofTxIn, sizeofTxOut, vlib.Hex(raw))), 10, 64)
+		M := ob.alloc
+		for try := 0; try < 4 && M > 2*A+2048; try++ {
+			M = observeTx(raw, true).alloc
+		}
+		if A > 0 {
+			q := float64(M) / float64(A)
+			if q > maxAllocVsModel {
+				maxAllocVsModel = q
+			}
+			if q < minAllocVsModel {
+				minAllocVsModel = q
+			}
+		}
+		if M < A || M > 2*A+2048 {
+			r.TieFail("tie-tx-alloc", fmt.Sprintf("model allocTx=%d bytes requested, btc.NewTx allocated %d (expected A <= M <= 2A+2048); input=%s", A, M, short(raw)), rep("tx", raw))
+		} else {
+			r.TieOK()
 		}
 	}
 	// ---- tie: model vs implementation
@@ -792,6 +806,10 @@ type blkObs struct {
 	rawTxs   [][]byte
 	hashes   [][]byte
 	nws      []uint32
+	mmatch   bool
+	mroot    string
+	mmut     bool
+	mpanic   string
 }
 
 func observeBlock(raw []byte, dohash bool) (ob blkObs) {
@@ -828,7 +846,45 @@ func observeBlock(raw []byte, dohash bool) (ob blkObs) {
 		ob.hashes = append(ob.hashes, append([]byte{}, tx.Hash.Hash[:]...))
 		ob.nws = append(ob.nws, tx.NoWitSize)
 	}
+	// Merkle root side: MerkleRootMatch() on whatever BuildTxList left, GetMerkle() when there is a leaf
+	func() {
+		defer func() {
+			if x := recover(); x != nil {
+				ob.mpanic = fmt.Sprint(x)
+			}
+		}()
+		ob.mmatch = bl.MerkleRootMatch()
+		ob.mroot = "none"
+		if len(bl.Txs) > 0 {
+			root, mut := bl.GetMerkle()
+			ob.mroot, ob.mmut = vlib.Hex(root), mut
+		}
+	}()
 	return
+}
+
+// refMerkle: Bitcoin Core's ComputeMerkleRoot with its CVE-2012-2459 mutation flag
+func refMerkle(ids [][]byte) (root []byte, mutated bool) {
+	if len(ids) == 0 {
+		return make([]byte, 32), false
+	}
+	lv := ids
+	for len(lv) > 1 {
+		for pos := 0; pos+1 < len(lv); pos += 2 {
+			if bytes.Equal(lv[pos], lv[pos+1]) {
+				mutated = true
+			}
+		}
+		if len(lv)&1 == 1 {
+			lv = append(lv[:len(lv):len(lv)], lv[len(lv)-1])
+		}
+		var nx [][]byte
+		for pos := 0; pos < len(lv); pos += 2 {
+			nx = append(nx, sha256d(append(append([]byte{}, lv[pos]...), lv[pos+1]...)))
+		}
+		lv = nx
+	}
+	return lv[0], mutated
 }
 
 func checkBlock(kind string, raw []byte) {
@@ -866,16 +922,15 @@ func checkBlock(kind string, raw []byte) {
 		}
 		offs = d.p
 		hdr := offs
+		var refIDs [][]byte
 		for i, rt := range ob.rawTxs {
-			ref, n, e := refParse(raw[offs:], false)
-			if e != "" && len(raw) > offs+5 && raw[offs+4] == 0 && raw[offs+5] >= 2 {
-				ref, n, e = refParse(raw[offs:], true)
-			}
+			ref, n, e := refParse(raw[offs:])
 			if e != "" || n != len(rt) {
 				fail("block-tx-parse", fmt.Sprintf("transaction %d of the block: reference says %q/%d bytes, code took %d", i, e, n, len(rt)))
 				break
 			}
 			strip := refSerialize(&ref, false)
+			refIDs = append(refIDs, sha256d(strip))
 			base += len(strip)
 			total += n
 			if !bytes.Equal(ob.hashes[i], sha256d(strip)) {
@@ -890,6 +945,27 @@ func checkBlock(kind string, raw []byte) {
 		if ob.err == "none" && uint64(len(ob.rawTxs)) != cnt {
 			fail("block-count", fmt.Sprintf("%d transactions built, count field says %d", len(ob.rawTxs), cnt))
 		}
+		// Merkle root: MerkleRootMatch() iff every announced transaction was built, the header field is the root
+		// over the reference txids and the tree has no duplicated pair (CVE-2012-2459)
+		if ob.mpanic != "" {
+			fail("block-merkle-panic", "MerkleRootMatch/GetMerkle panicked: "+ob.mpanic)
+		} else if len(refIDs) == len(ob.rawTxs) {
+			root, mut := refMerkle(refIDs)
+			want := ob.err == "none" && !mut && bytes.Equal(root, raw[36:68])
+			cls := "merkle-nomatch"
+			if want {
+				cls = "merkle-match"
+			} else if ob.err == "none" && mut && bytes.Equal(root, raw[36:68]) {
+				cls = "merkle-mutated-same-root"
+			}
+			r.Hit(cls)
+			if ob.mmatch != want {
+				fail("block-merkle-match", fmt.Sprintf("MerkleRootMatch()=%v, expected %v (build %s, reference root %s mutated=%v, header field %s)", ob.mmatch, want, ob.err, vlib.Hex(root), mut, vlib.Hex(raw[36:68])))
+			}
+			if len(refIDs) > 0 && (ob.mroot != vlib.Hex(root) || ob.mmut != mut) {
+				fail("block-merkle-root", fmt.Sprintf("GetMerkle()=%s/%v, reference %s/%v", ob.mroot, ob.mmut, vlib.Hex(root), mut))
+			}
+		}
 	}
 	ans := o.MustAsk("block " + vlib.Hex(raw))
 	got := fmt.Sprintf("%s %d %d %d %s", ob.err, ob.txCount, ob.weight, len(ob.txs), strings.Join(ob.txs, " "))
@@ -901,6 +977,59 @@ func checkBlock(kind string, raw []byte) {
 	} else {
 		r.TieFail("tie-block", "model decodeBlock and btc.NewBlock+BuildTxList disagree; input="+short(raw)+" "+firstDiff(ans, got), rep("block", raw))
 	}
+	if ob.err == "none" || ob.err == "txFailed" {
+		ans := o.MustAsk("merkle " + vlib.Hex(raw))
+		mm, mu := "0", "0"
+		if ob.mmatch {
+			mm = "1"
+		}
+		if ob.mmut {
+			mu = "1"
+		}
+		got := fmt.Sprintf("%s %s %s", mm, ob.mroot, mu)
+		if got == ans {
+			r.TieOK()
+		} else {
+			r.TieFail("tie-block-merkle", "model merkleRootMatch/getMerkle and Block.MerkleRootMatch/GetMerkle disagree; input="+short(raw)+" model="+ans+" impl="+got, rep("block", raw))
+		}
+	}
+}
+
+// asmBlock: header (merkle field set to the root over the given transactions' txids when fixRoot) + count + txs
+func asmBlock(hdr []byte, txs [][]byte, fixRoot bool) []byte {
+	w := new(bytes.Buffer)
+	hd := exact(hdr)
+	if fixRoot {
+		var ids [][]byte
+		for _, t := range txs {
+			ref, _, _ := refParse(t)
+			ids = append(ids, sha256d(refSerialize(&ref, false)))
+		}
+		root, _ := refMerkle(ids)
+		copy(hd[36:68], root)
+	}
+	w.Write(hd)
+	putCS(w, uint64(len(txs)))
+	for _, t := range txs {
+		w.Write(t)
+	}
+	return w.Bytes()
+}
+
+// dupTail: the CVE-2012-2459 transformation — repeat the last 2^k transactions where level k of the tree has an
+// odd number (> 1) of nodes: the Merkle root stays the same. nil when the count is a power of two.
+func dupTail(txs [][]byte) [][]byte {
+	n, k := len(txs), 1
+	for n > 1 {
+		if n&1 == 1 {
+			if k > len(txs) {
+				return nil
+			}
+			return append(append([][]byte{}, txs...), txs[len(txs)-k:]...)
+		}
+		n, k = n/2, k*2
+	}
+	return nil
 }
 
 func genBlock(g *vlib.Rng, ntx int) ([]byte, [][]byte) {
@@ -976,6 +1105,10 @@ var corpusTx = []struct{ name, hex string }{
 	{"zero-in-zero-out", "01000000 00 00 00000000"},
 	{"zero-in-flag2", "01000000 00 02" + cOut + cOut + "00000000"},
 	{"zero-in-flag3", "01000000 00 03" + cOut + cOut + cOut + "00000000"},
+	{"zero-in-flag-fd", "01000000 00 fd0100" + cOut + "00000000"},
+	{"zero-in-flag-ff-short", "01000000 00 ff"},
+	{"zero-in-flag2-truncated", "01000000 00 02" + cOut},
+	{"zero-in-segwit-zero-out", "01000000 0001 00 00 00000000"},
 	{"marker-only", "01000000 00"},
 	{"marker-01-short", "01000000 0001"},
 	{"version-only", "01000000"},
@@ -1165,7 +1298,7 @@ func main() {
 	for i := 0; i < nvalid; i++ {
 		t := genTx(g, i%40 == 0)
 		b := refSerialize(&t, true)
-		if _, _, e := refParse(b, false); e == "" && len(b) < 3000 && len(pool) < 4000 {
+		if _, _, e := refParse(b); e == "" && len(b) < 3000 && len(pool) < 4000 {
 			pool = append(pool, t)
 		}
 		checkTx("generated", b)
@@ -1295,8 +1428,24 @@ func main() {
 		if i%25 == 0 {
 			ntx = g.Pick(253, 260, 120)
 		}
-		b, _ := genBlock(g, ntx)
+		b0, txs := genBlock(g, ntx)
+		b := asmBlock(b0[:80], txs, true) // header field = Merkle root of the txids
 		checkBlock("block", b)
+		if i%3 == 0 {
+			checkBlock("block-random-merkle-field", b0)
+			c := exact(b)
+			c[36+g.Intn(32)] ^= byte(1 << uint(g.Intn(8)))
+			checkBlock("block-merkle-field-bitflip", c)
+		}
+		if d := dupTail(txs); d != nil && i%2 == 0 {
+			checkBlock("block-duplicated-tail(CVE-2012-2459)", asmBlock(b[:80], d, false))
+		}
+		if i%5 == 0 && len(txs) > 1 { // one transaction fewer than the root commits to / one swapped pair
+			checkBlock("block-merkle-tx-dropped", asmBlock(b[:80], txs[:len(txs)-1], false))
+			sw := append([][]byte{}, txs...)
+			sw[0], sw[len(sw)-1] = sw[len(sw)-1], sw[0]
+			checkBlock("block-merkle-tx-swapped", asmBlock(b[:80], sw, false))
+		}
 		switch i % 4 {
 		case 0:
 			checkBlock("block-trailing", append(exact(b), g.Bytes(1+g.Intn(30))...))
@@ -1320,6 +1469,8 @@ func main() {
 	}
 
 	phase("blocks")
+	r.Extra["alloc_measured_over_model_min_max"] = []float64{minAllocVsModel, maxAllocVsModel}
+	r.Extra["alloc_model_struct_sizes_tx_txin_txout"] = []uint64{uint64(sizeofTx), uint64(sizeofTxIn), uint64(sizeofTxOut)}
 	r.Extra["alloc_cases_measured"] = allocMeasured
 	r.Extra["alloc_max_bytes_per_input_byte"] = maxAllocRatio
 	r.Extra["alloc_max_case"] = maxAllocCase
@@ -1328,10 +1479,10 @@ func main() {
 		"SHA-256 is modelled (Lean executable version validated here against Go's crypto/sha256 on every accepted case); theorems are parametric in the hash",
 		"inputs shorter than 2^30 bytes (uint32 size fields do not wrap)",
 		"the reference parser in this harness (refParse/refSerialize) states BIP144 + Bitcoin Core's UnserializeTransaction/ReadCompactSize",
-		"documented deviation kept out of the accept/refuse comparison: a transaction with ZERO inputs whose next byte is neither 00 nor 01 is read by btc.NewTx as a legacy transaction without inputs, whereas Core refuses it as 'unknown optional data'; it re-encodes identically and is refused later by CheckTransaction (vin empty); counted in the histogram as accept-zero-input-flags(core-refuses)",
+		"allocation counter of the model (Wire.allocTx) counts bytes REQUESTED (64-bit Go: pointer 8, slice header 24, struct sizes from unsafe.Sizeof); size-class rounding and the panic value of a refused input are covered by the tie bound A <= measured <= 2A+2048",
 	}
-	r.Finish("corpus (defect witnesses of F4, boundary shapes, Core's tx_valid/tx_invalid vectors from /repo/lib/test); BIP144 encodings of random transactions (0..300 inputs/outputs/witness items, scripts 0..65537 bytes, CompactSize boundaries 252..257/65535..65537) with and without trailing bytes; EVERY truncation and every byte position mutated 6-9 ways of a sample; every length field of a sample in each of the four CompactSize forms and with huge values; marker/flag combinations; emptied witnesses; unstructured bytes; structured transactions through both serialisers; random blocks with trailing bytes, truncations, bit flips, changed count forms. distinct = distinct input byte strings longer than 4 bytes",
-		"each byte string is run through btc.NewTx/SetHash/Serialize/SerializeNew/Weight/VSize/TxSize (blocks: NewBlock+BuildTxListExt true and false), through the Lean model (oracle_c09) and through an independent BIP144/Core reference parser; the property predicate (no panic; accepted iff the reference accepts; re-encoding = bytes consumed; txid/wtxid = double-SHA256 of the stripped/full serialisation; Size/NoWitSize/Weight/VSize/BlockWeight per BIP141; TxSize = consumed and never past the buffer; allocation ≤ 64·len+8192) is evaluated on the real code; model = implementation on every field is the tie for the theorems in Props/C09.lean")
+	r.Finish("corpus (defect witnesses of F4, boundary shapes, Core's tx_valid/tx_invalid vectors from /repo/lib/test); BIP144 encodings of random transactions (0..300 inputs/outputs/witness items, scripts 0..65537 bytes, CompactSize boundaries 252..257/65535..65537) with and without trailing bytes; EVERY truncation and every byte position mutated 6-9 ways of a sample; every length field of a sample in each of the four CompactSize forms and with huge values; marker/flag combinations; emptied witnesses; unstructured bytes; structured transactions through both serialisers; random blocks (header Merkle field = root of the txids; also random / bit-flipped field, CVE-2012-2459 duplicated tails, dropped and swapped transactions) with trailing bytes, truncations, bit flips, changed count forms. distinct = distinct input byte strings longer than 4 bytes",
+		"each byte string is run through btc.NewTx/SetHash/Serialize/SerializeNew/Weight/VSize/TxSize (blocks: NewBlock+BuildTxListExt true and false), through the Lean model (oracle_c09) and through an independent BIP144/Core reference parser; the property predicate (no panic; accepted iff the reference accepts; re-encoding = bytes consumed; txid/wtxid = double-SHA256 of the stripped/full serialisation; Size/NoWitSize/Weight/VSize/BlockWeight per BIP141; TxSize = consumed and never past the buffer; allocation ≤ 64·len+8192; MerkleRootMatch iff built completely, header field = reference Merkle root of the reference txids, no duplicated pair) is evaluated on the real code; model = implementation on every field is the tie for the theorems in Props/C09.lean")
 }
 
 func replay(path string) {
